@@ -2022,6 +2022,8 @@ func ruleNoInject(p *Program, r *Reporter) {
 				switch {
 				case path == Mod+"/vm" && fn == mustAnchorRun(p):
 					r.Ok(key, p.Pos(ins.Pos()), "VM opcode handler")
+				case path == Mod+"/vm" && isInterpreterOnly(p, fn):
+					r.Ok(key, p.Pos(ins.Pos()), "part of the VM's opcode handlers (only the interpreter calls it)")
 				case path == Mod+"/environment":
 					r.Ok(key, p.Pos(ins.Pos()), "inside the variable store")
 				case name == "evalfilter.(*Eval).SetVariable":
@@ -2323,4 +2325,13 @@ func trueImpliesLowerBound(v ssa.Value, prm ssa.Value, depth int) bool {
 		return len(x.Edges) > 0
 	}
 	return false
+}
+
+// isInterpreterOnly: fn is a part of the interpreter's handlers (see interpreterOnly).
+func isInterpreterOnly(p *Program, fn *ssa.Function) bool {
+	a, missing := p.Anchors()
+	if a == nil || len(missing) > 0 {
+		return false
+	}
+	return interpreterOnly(p, a)[fn]
 }
